@@ -123,10 +123,13 @@ Visit(lv, lo, hi, v) ==
     ELSE IF lo = hi THEN {<<lo, hi>>}
     ELSE LET m == Mid(lo, hi) IN {<<lo, hi>>} \cup Visit(lv, lo, m - 1, v) \cup Visit(lv, m, hi, v)
 
-StreeContains(v, rs) ==
-    /\ rs # {}
-    /\ LET lv == Leaves(EndP(rs)) IN
-       \E r \in rs : Ins(lv, 1, Len(lv), r) \cap Visit(lv, 1, Len(lv), v) # {}
+\* Build() once, then one stabbing query per address of P: the addresses the tree reports as contained
+StreeHits(P, rs) ==
+    IF rs = {} THEN {}
+    ELSE LET lv     == Leaves(EndP(rs))
+             stored == UNION {Ins(lv, 1, Len(lv), r) : r \in rs}      \* nodes with a non-empty overlap list
+         IN  {v \in P : Visit(lv, 1, Len(lv), v) \cap stored # {}}
+StreeContains(v, rs) == v \in StreeHits({v}, rs)
 
 -----------------------------------------------------------------------------
 (* Candidate queue                                                         *)
